@@ -62,16 +62,34 @@ impl ExponentialBackoff {
     }
 }
 
+/// Computes `initial * multiplier^attempt` capped at `max` (or `Duration::MAX`),
+/// saturating instead of panicking when the product is not representable.
+fn capped_exponential(
+    initial: Duration,
+    multiplier: f64,
+    attempt: usize,
+    max: Option<Duration>,
+) -> Duration {
+    let cap = max.unwrap_or(Duration::MAX);
+    if initial.is_zero() {
+        return Duration::ZERO;
+    }
+    let exponent = attempt.min(i32::MAX as usize) as i32;
+    let secs = initial.as_secs_f64() * multiplier.powi(exponent);
+    if secs.is_nan() || secs >= cap.as_secs_f64() {
+        return cap;
+    }
+    Duration::try_from_secs_f64(secs).unwrap_or(cap).min(cap)
+}
+
 impl IntervalFunction for ExponentialBackoff {
     fn next_interval(&self, attempt: usize) -> Duration {
-        let multiplier = self.multiplier.powi(attempt as i32);
-        let interval = self.initial_interval.mul_f64(multiplier);
-
-        if let Some(max) = self.max_interval {
-            interval.min(max)
-        } else {
-            interval
-        }
+        capped_exponential(
+            self.initial_interval,
+            self.multiplier,
+            attempt,
+            self.max_interval,
+        )
     }
 }
 
@@ -119,20 +137,18 @@ impl ExponentialRandomBackoff {
         let min = duration.as_secs_f64() - delta;
         let max = duration.as_secs_f64() + delta;
         let randomized = rng.random_range(min..=max);
-        Duration::from_secs_f64(randomized.max(0.0))
+        Duration::try_from_secs_f64(randomized.max(0.0)).unwrap_or(Duration::MAX)
     }
 }
 
 impl IntervalFunction for ExponentialRandomBackoff {
     fn next_interval(&self, attempt: usize) -> Duration {
-        let multiplier = self.multiplier.powi(attempt as i32);
-        let interval = self.initial_interval.mul_f64(multiplier);
-
-        let capped = if let Some(max) = self.max_interval {
-            interval.min(max)
-        } else {
-            interval
-        };
+        let capped = capped_exponential(
+            self.initial_interval,
+            self.multiplier,
+            attempt,
+            self.max_interval,
+        );
 
         self.randomize(capped)
     }
